@@ -1,3 +1,17 @@
+// Harness for C26: restricted documents refuse the operations their permissions deny.
+//
+// Part A (exported real functions, hook file pkg/pdfcpu/verif_export_c26.go):
+//
+//	every command mode (plus values outside the constant block) x all 256 patterns of the eight
+//	Table-22 permission bits (all other bits random) x revisions -> maskExtract, maskModify,
+//	hasNeededPermissions, needsOwnerAndUserPassword, handlePermissions (with valid / tampered
+//	AES-256 /Perms for R 5 and 6) against the extracted model; oracle = the property evaluated on
+//	the implementation with an independent bit computation.
+//
+// Part B (end to end, public api only): real documents encrypted with user+owner password and
+//
+//	restrictive permissions, a sample of operations run with user-only / owner / wrong credentials;
+//	the observed outcome is compared with the model of checkForEncryption and with the specification.
 package main
 
 import (
@@ -6,51 +20,571 @@ import (
 	"fmt"
 	"io"
 	"os"
+	"path/filepath"
+	"sort"
+	"strings"
 
 	"github.com/pdfcpu/pdfcpu/pkg/api"
 	"github.com/pdfcpu/pdfcpu/pkg/pdfcpu"
 	"github.com/pdfcpu/pdfcpu/pkg/pdfcpu/model"
+	"github.com/pdfcpu/pdfcpu/pkg/pdfcpu/types"
+	"verif/vh"
 )
 
+// ---- the specification, computed independently of crypto.go (ISO 32000-1 Table 22, 1-based bits)
+
+func hasBit(p int, pos uint) bool { return (int64(p)>>(pos-1))&1 == 1 }
+
+func deniesExtract(p, rev int) bool {
+	if rev >= 3 {
+		return !hasBit(p, 10)
+	}
+	return !hasBit(p, 5)
+}
+
+func deniesModify(p, rev int) bool {
+	if rev >= 3 {
+		return !hasBit(p, 11)
+	}
+	return !hasBit(p, 4)
+}
+
+func specMustRefuse(k kind, p, rev int) bool {
+	switch k {
+	case kExtract:
+		return deniesExtract(p, rev)
+	case kModify:
+		return deniesModify(p, rev)
+	case kEither:
+		return deniesExtract(p, rev) && deniesModify(p, rev)
+	}
+	return false
+}
+
+func kindOf(m model.CommandMode) kind {
+	if k, ok := specKind[m]; ok {
+		return k
+	}
+	return kRow
+}
+
+func name(m model.CommandMode) string {
+	if n, ok := modeNames[m]; ok {
+		return n
+	}
+	return fmt.Sprintf("mode%d", int(m))
+}
+
+// the eight permission bits of Table 22
+var relevant = []uint{3, 4, 5, 6, 9, 10, 11, 12}
+
+func withPattern(base int32, pat int) int32 {
+	v := uint32(base)
+	for i, pos := range relevant {
+		bit := uint32(1) << (pos - 1)
+		if pat>>uint(i)&1 == 1 {
+			v |= bit
+		} else {
+			v &^= bit
+		}
+	}
+	return int32(v)
+}
+
+var reported = map[string]bool{}
+
 func main() {
+	r := vh.Start("C26")
+	defer r.Finish()
 	api.DisableConfigDir()
-	src, err := os.ReadFile("/repo/pkg/testdata/testWithText.pdf")
+
+	table := pdfcpu.VerifC26PermTable()
+	r.Case("tableSize", nil, fmt.Sprint(len(table)))
+
+	var modes []model.CommandMode
+	for m := model.CommandMode(-2); m <= lastMode+4; m++ {
+		modes = append(modes, m)
+	}
+	modes = append(modes, 1000, -1000)
+
+	partA(r, table, modes)
+	partB(r, table)
+}
+
+// ---------------------------------------------------------------- part A
+
+func partA(r *vh.Run, table map[model.CommandMode][2]int, modes []model.CommandMode) {
+	revs := []int{2, 3, 4, 5, 6}
+	revsWide := []int{-1, 0, 1, 2, 3, 4, 5, 6, 7, 100}
+	for _, m := range modes {
+		ms := vh.Int(int64(m))
+		row, inTable := table[m]
+		if inTable {
+			r.Case("permRow", []string{ms}, vh.Int(int64(row[0]))+","+vh.Int(int64(row[1])))
+			r.Count("class:mode-in-table")
+		} else {
+			r.Case("permRow", []string{ms}, "none")
+			r.Count("class:mode-not-in-table")
+		}
+		r.Case("needsBoth", []string{ms}, vh.Bool(pdfcpu.VerifC26NeedsOwnerAndUserPassword(m)))
+		r.Case("specKind", []string{ms}, string(kindOf(m)))
+		for _, rev := range revsWide {
+			r.Case("maskExtract", []string{ms, vh.Int(int64(rev))}, vh.Int(int64(pdfcpu.VerifC26MaskExtract(m, rev))))
+			r.Case("maskModify", []string{ms, vh.Int(int64(rev))}, vh.Int(int64(pdfcpu.VerifC26MaskModify(m, rev))))
+		}
+		for _, rev := range revs {
+			for pat := 0; pat < 256; pat++ {
+				p := int(withPattern(int32(r.Rand.Uint32()), pat))
+				if r.Thorough() && pat%16 == 3 {
+					// Go int is 64-bit: also values outside the signed 32-bit range (the function does not care)
+					p = int(int64(r.Rand.Uint64())&^0xFFFFFFFF | int64(uint32(p)))
+				}
+				got := pdfcpu.VerifC26HasNeededPermissions(m, p, rev)
+				r.Case("hasNeeded", []string{ms, vh.Int(int64(p)), vh.Int(int64(rev))}, vh.Bool(got))
+				oracleA(r, m, inTable, row, p, rev, got)
+			}
+		}
+		handlePermissionsCases(r, m)
+	}
+}
+
+// oracleA evaluates the property on hasNeededPermissions itself.
+func oracleA(r *vh.Run, m model.CommandMode, inTable bool, row [2]int, p, rev int, allowed bool) {
+	in := map[string]any{"mode": name(m), "modeValue": int(m), "P": p, "R": rev}
+	ok := true
+	if inTable {
+		// the statement of the property: pdfcpu's own classification decides
+		needE, needM := row[0] != 0, row[1] != 0
+		wantRefused := needE && deniesExtract(p, rev) || needM && deniesModify(p, rev)
+		switch {
+		case wantRefused && allowed && needE && deniesExtract(p, rev):
+			r.OracleFail("extract-classified-not-refused", in, "extract right denied by P but hasNeededPermissions = true")
+			ok = false
+		case wantRefused && allowed:
+			r.OracleFail("modify-classified-not-refused", in, "modify right denied by P but hasNeededPermissions = true")
+			ok = false
+		case !wantRefused && !allowed:
+			r.OracleFail("refused-although-granted", in, "all rights the command is classified for are granted but hasNeededPermissions = false")
+			ok = false
+		}
+	}
+	// coverage: what the command does (specification) against the decision
+	k := kindOf(m)
+	if specMustRefuse(k, p, rev) && allowed && !rejectsEncrypted[m] {
+		key := fmt.Sprintf("A/%s/%d", name(m), rev)
+		if !reported[key] {
+			reported[key] = true
+			r.OracleFail("unclassified-mode:"+name(m), in,
+				fmt.Sprintf("command of kind %q: the document denies the right, user-password-only access is not refused (no/insufficient row in perm)", k))
+		}
+		r.Count("gap:" + name(m))
+		ok = false
+	}
+	if ok {
+		r.OracleOK()
+	}
+}
+
+func newCtx(m model.CommandMode, p, rev int, upw, opw string) *model.Context {
+	ctx, err := model.NewContext(bytes.NewReader(nil), nil)
 	if err != nil {
 		panic(err)
 	}
-	for _, kl := range []struct {
-		aes bool
-		l   int
-	}{{false, 40}, {false, 128}, {true, 128}, {true, 256}} {
-		for _, perm := range []model.PermissionFlags{model.PermissionsNone, model.PermissionsAll, model.PermissionsNone | model.PermissionExtract | model.PermissionExtractRev3, model.PermissionsNone | model.PermissionModify | model.PermissionAssembleRev3} {
-			conf := model.NewDefaultConfiguration()
-			conf.UserPW = "upw"
-			conf.OwnerPW = "opw"
-			conf.EncryptUsingAES = kl.aes
-			conf.EncryptKeyLength = kl.l
-			conf.Permissions = perm
-			var enc bytes.Buffer
-			if err := api.Encrypt(bytes.NewReader(src), &enc, conf); err != nil {
-				fmt.Println("encrypt", kl, perm, err)
-				continue
+	ctx.Cmd = m
+	ctx.UserPW = upw
+	ctx.OwnerPW = opw
+	ctx.E = &model.Enc{P: p, R: rev, Emd: true}
+	return ctx
+}
+
+func handlePermissionsCases(r *vh.Run, m model.CommandMode) {
+	ms := vh.Int(int64(m))
+	pws := []struct{ upw, opw string }{{"upw", ""}, {"", "opw"}, {"upw", "opw"}, {"", ""}}
+	four := []uint{4, 5, 10, 11}
+	for _, rev := range []int{2, 3, 4, 5, 6} {
+		for pat := 0; pat < 16; pat++ {
+			v := r.Rand.Uint32()
+			for i, pos := range four {
+				bit := uint32(1) << (pos - 1)
+				if pat>>uint(i)&1 == 1 {
+					v |= bit
+				} else {
+					v &^= bit
+				}
 			}
-			run := func(name string, f func(c *model.Configuration) error) {
-				c := model.NewDefaultConfiguration()
-				c.UserPW = "upw"
-				err := f(c)
-				fmt.Printf("aes=%v len=%d perm=%04x %-14s denied=%v err=%v\n", kl.aes, kl.l, int(perm), name, errors.Is(err, pdfcpu.ErrPermissionDenied), err)
+			p := int(int32(v))
+			for _, pw := range pws {
+				variants := []bool{true}
+				if rev >= 5 {
+					variants = []bool{true, false}
+				}
+				for _, valid := range variants {
+					ctx := newCtx(m, p, rev, pw.upw, pw.opw)
+					if rev >= 5 {
+						ctx.EncKey = make([]byte, 32)
+						r.Rand.Read(ctx.EncKey) // the key value is irrelevant to the decision
+						ctx.E.Perms = make([]byte, 16)
+						if !valid {
+							ctx.E.P = int(int32(uint32(p) ^ (1 << uint(r.Rand.Intn(32))))) // /Perms written for another P
+						}
+						if err := pdfcpu.VerifC26WritePermissions(ctx); err != nil {
+							panic(err)
+						}
+						ctx.E.P = p
+					}
+					got := pdfcpu.VerifC26HandlePermissions(ctx)
+					r.Case("handlePermissions", []string{vh.Bool(valid), vh.Bool(pw.opw == ""), vh.Bool(pw.upw == ""), ms, vh.Int(int64(p)), vh.Int(int64(rev))}, got)
+				}
 			}
-			b := enc.Bytes()
-			run("info", func(c *model.Configuration) error { _, err := api.PDFInfo(bytes.NewReader(b), "x", nil, false, c); return err })
-			run("extractContent", func(c *model.Configuration) error {
-				return api.ExtractContent(bytes.NewReader(b), nil, func(r io.Reader, n int) error { return nil }, c)
-			})
-			run("rotate", func(c *model.Configuration) error { return api.Rotate(bytes.NewReader(b), &bytes.Buffer{}, 90, nil, c) })
-			run("resize", func(c *model.Configuration) error {
-				return api.Resize(bytes.NewReader(b), &bytes.Buffer{}, nil, &model.Resize{Scale: 0.5}, c)
-			})
-			run("optimize", func(c *model.Configuration) error { return api.Optimize(bytes.NewReader(b), &bytes.Buffer{}, c) })
-			run("decrypt", func(c *model.Configuration) error { return api.Decrypt(bytes.NewReader(b), &bytes.Buffer{}, c) })
 		}
+	}
+}
+
+// ---------------------------------------------------------------- part B (end to end)
+
+type op struct {
+	name string
+	mode model.CommandMode
+	run  func(b []byte, c *model.Configuration, tmp string) error
+	// passed: text of an error that is raised only after the document has been opened and the access
+	// decision has been taken (the sample document has no form / no signature); counts as "ok".
+	passed string
+}
+
+func rd(b []byte) io.ReadSeeker { return bytes.NewReader(b) }
+
+func ops() []op {
+	sink := func() io.Writer { return &bytes.Buffer{} }
+	wm := func() *model.Watermark {
+		w, err := api.TextWatermark("C26", "scale:0.5", true, false, types.POINTS)
+		if err != nil {
+			panic(err)
+		}
+		return w
+	}
+	return []op{
+		{"validate", model.VALIDATE, func(b []byte, c *model.Configuration, _ string) error { return api.Validate(rd(b), c) }, ""},
+		{"info", model.LISTINFO, func(b []byte, c *model.Configuration, _ string) error {
+			_, err := api.PDFInfo(rd(b), "x.pdf", nil, false, c)
+			return err
+		}, ""},
+		{"optimize", model.OPTIMIZE, func(b []byte, c *model.Configuration, _ string) error { return api.Optimize(rd(b), sink(), c) }, ""},
+		{"split", model.SPLIT, func(b []byte, c *model.Configuration, _ string) error {
+			_, err := api.SplitRaw(rd(b), 1, c)
+			return err
+		}, ""},
+		{"extractImages", model.EXTRACTIMAGES, func(b []byte, c *model.Configuration, _ string) error {
+			return api.ExtractImages(rd(b), nil, func(model.Image, bool, int) error { return nil }, c)
+		}, ""},
+		{"extractFonts", model.EXTRACTFONTS, func(b []byte, c *model.Configuration, _ string) error {
+			return api.ExtractFonts(rd(b), nil, func(pdfcpu.Font) error { return nil }, c)
+		}, ""},
+		{"extractPages", model.EXTRACTPAGES, func(b []byte, c *model.Configuration, _ string) error {
+			return api.ExtractPages(rd(b), []string{"1"}, func(io.Reader, int) error { return nil }, c)
+		}, ""},
+		{"extractContent", model.EXTRACTCONTENT, func(b []byte, c *model.Configuration, _ string) error {
+			return api.ExtractContent(rd(b), nil, func(io.Reader, int) error { return nil }, c)
+		}, ""},
+		{"extractMetadata", model.EXTRACTMETADATA, func(b []byte, c *model.Configuration, _ string) error {
+			return api.ExtractMetadata(rd(b), func(pdfcpu.Metadata) error { return nil }, c)
+		}, ""},
+		{"collect", model.COLLECT, func(b []byte, c *model.Configuration, _ string) error {
+			return api.Collect(rd(b), sink(), []string{"1"}, c)
+		}, ""},
+		{"trim", model.TRIM, func(b []byte, c *model.Configuration, _ string) error {
+			return api.Trim(rd(b), sink(), []string{"1"}, c)
+		}, ""},
+		{"listAttachments", model.LISTATTACHMENTS, func(b []byte, c *model.Configuration, _ string) error {
+			_, err := api.Attachments(rd(b), c)
+			return err
+		}, ""},
+		{"listPermissions", model.LISTPERMISSIONS, func(b []byte, c *model.Configuration, _ string) error {
+			_, err := api.GetPermissions(rd(b), c)
+			return err
+		}, ""},
+		{"addWatermarks", model.ADDWATERMARKS, func(b []byte, c *model.Configuration, _ string) error {
+			return api.AddWatermarks(rd(b), sink(), nil, wm(), c)
+		}, ""},
+		{"insertPages", model.INSERTPAGESBEFORE, func(b []byte, c *model.Configuration, _ string) error {
+			return api.InsertPages(rd(b), sink(), []string{"1"}, true, nil, c)
+		}, ""},
+		{"listKeywords", model.LISTKEYWORDS, func(b []byte, c *model.Configuration, _ string) error { _, err := api.Keywords(rd(b), c); return err }, ""},
+		{"addKeywords", model.ADDKEYWORDS, func(b []byte, c *model.Configuration, _ string) error {
+			return api.AddKeywords(rd(b), sink(), []string{"c26"}, c)
+		}, ""},
+		{"listProperties", model.LISTPROPERTIES, func(b []byte, c *model.Configuration, _ string) error { _, err := api.Properties(rd(b), c); return err }, ""},
+		{"addProperties", model.ADDPROPERTIES, func(b []byte, c *model.Configuration, _ string) error {
+			return api.AddProperties(rd(b), sink(), map[string]string{"c26": "x"}, c)
+		}, ""},
+		{"crop", model.CROP, func(b []byte, c *model.Configuration, _ string) error {
+			box, err := api.Box("[10 10 200 200]", types.POINTS)
+			if err != nil {
+				panic(err)
+			}
+			return api.Crop(rd(b), sink(), nil, box, c)
+		}, ""},
+		{"listBoxes", model.LISTBOXES, func(b []byte, c *model.Configuration, _ string) error { _, err := api.Boxes(rd(b), nil, c); return err }, ""},
+		{"listAnnotations", model.LISTANNOTATIONS, func(b []byte, c *model.Configuration, _ string) error {
+			_, err := api.Annotations(rd(b), nil, c)
+			return err
+		}, ""},
+		{"rotate", model.ROTATE, func(b []byte, c *model.Configuration, _ string) error { return api.Rotate(rd(b), sink(), 90, nil, c) }, ""},
+		{"nup", model.NUP, func(b []byte, c *model.Configuration, _ string) error {
+			nup, err := api.PDFNUpConfig(2, "", c)
+			if err != nil {
+				panic(err)
+			}
+			return api.NUp(rd(b), sink(), nil, nil, nup, c)
+		}, ""},
+		{"booklet", model.BOOKLET, func(b []byte, c *model.Configuration, _ string) error {
+			nup, err := api.PDFBookletConfig(2, "", c)
+			if err != nil {
+				panic(err)
+			}
+			return api.Booklet(rd(b), sink(), nil, nil, nup, c)
+		}, ""},
+		{"merge", model.MERGECREATE, func(b []byte, c *model.Configuration, _ string) error {
+			return api.MergeRaw([]io.ReadSeeker{rd(b), rd(b)}, sink(), false, c)
+		}, ""},
+		{"listImages", model.LISTIMAGES, func(b []byte, c *model.Configuration, _ string) error {
+			_, err := api.Images(rd(b), nil, c)
+			return err
+		}, ""},
+		{"listFormFields", model.LISTFORMFIELDS, func(b []byte, c *model.Configuration, _ string) error { _, err := api.FormFields(rd(b), c); return err }, "no form available"},
+		{"listPageLayout", model.LISTPAGELAYOUT, func(b []byte, c *model.Configuration, _ string) error { _, err := api.PageLayout(rd(b), c); return err }, ""},
+		{"setPageLayout", model.SETPAGELAYOUT, func(b []byte, c *model.Configuration, _ string) error {
+			return api.SetPageLayout(rd(b), sink(), model.PageLayoutSinglePage, c)
+		}, ""},
+		{"setPageMode", model.SETPAGEMODE, func(b []byte, c *model.Configuration, _ string) error {
+			return api.SetPageMode(rd(b), sink(), model.PageModeUseNone, c)
+		}, ""},
+		{"zoom", model.ZOOM, func(b []byte, c *model.Configuration, _ string) error {
+			return api.Zoom(rd(b), sink(), nil, &model.Zoom{Factor: 0.5}, c)
+		}, ""},
+		{"resize", model.RESIZE, func(b []byte, c *model.Configuration, _ string) error {
+			return api.Resize(rd(b), sink(), nil, &model.Resize{Scale: 0.5}, c)
+		}, ""},
+		{"ndown", model.NDOWN, func(b []byte, c *model.Configuration, tmp string) error {
+			cut, err := pdfcpu.ParseCutConfigForN(2, "", types.POINTS)
+			if err != nil {
+				panic(err)
+			}
+			return api.NDown(rd(b), tmp, "nd", []string{"1"}, 2, cut, c)
+		}, ""},
+		{"cut", model.CUT, func(b []byte, c *model.Configuration, tmp string) error {
+			cut, err := pdfcpu.ParseCutConfig("hor:.5", types.POINTS)
+			if err != nil {
+				panic(err)
+			}
+			return api.Cut(rd(b), tmp, "cut", []string{"1"}, cut, c)
+		}, ""},
+		{"poster", model.POSTER, func(b []byte, c *model.Configuration, tmp string) error {
+			cut, err := pdfcpu.ParseCutConfigForPoster("f:A6", types.POINTS)
+			if err != nil {
+				panic(err)
+			}
+			return api.Poster(rd(b), tmp, "poster", []string{"1"}, cut, c)
+		}, ""},
+		{"create", model.CREATE, func(b []byte, c *model.Configuration, _ string) error {
+			js := `{"pages":{"1":{"content":{"text":[{"value":"C26","pos":[100,100],"font":{"name":"Helvetica","size":12}}]}}}}`
+			return api.Create(rd(b), strings.NewReader(js), sink(), c)
+		}, ""},
+		{"removeSignatures", model.REMOVESIGNATURES, func(b []byte, c *model.Configuration, _ string) error {
+			return api.RemoveSignatures(rd(b), sink(), c)
+		}, "no signatures present"},
+		{"decrypt", model.DECRYPT, func(b []byte, c *model.Configuration, _ string) error { return api.Decrypt(rd(b), sink(), c) }, ""},
+		{"encrypt", model.ENCRYPT, func(b []byte, c *model.Configuration, _ string) error { return api.Encrypt(rd(b), sink(), c) }, ""},
+		{"setPermissions", model.SETPERMISSIONS, func(b []byte, c *model.Configuration, _ string) error {
+			c.Permissions = model.PermissionsAll
+			return api.SetPermissions(rd(b), sink(), c)
+		}, ""},
+	}
+}
+
+func classify(err error) string {
+	switch {
+	case err == nil:
+		return "ok"
+	case errors.Is(err, pdfcpu.ErrPermissionDenied):
+		return "denied"
+	case errors.Is(err, pdfcpu.ErrWrongPassword):
+		return "wrong-password"
+	case errors.Is(err, pdfcpu.ErrOwnerPasswordRequired):
+		return "owner-required"
+	case errors.Is(err, pdfcpu.ErrEncrypted):
+		return "encrypted-unsupported"
+	case errors.Is(err, pdfcpu.ErrNotEncrypted):
+		return "not-encrypted"
+	}
+	s := err.Error()
+	if len(s) > 120 {
+		s = s[:120]
+	}
+	return "error:" + s
+}
+
+type encCfg struct {
+	label string
+	aes   bool
+	klen  int
+}
+
+type cred struct {
+	label    string
+	upw, opw string
+	ownerOK  bool
+	userOK   bool
+}
+
+func safeRun(o op, b []byte, c *model.Configuration, tmp string) (res string) {
+	defer func() {
+		if x := recover(); x != nil {
+			res = fmt.Sprintf("panic:%v", x)
+		}
+	}()
+	err := o.run(b, c, tmp)
+	if err != nil && o.passed != "" && strings.Contains(err.Error(), o.passed) {
+		return "ok"
+	}
+	return classify(err)
+}
+
+func partB(r *vh.Run, table map[model.CommandMode][2]int) {
+	repo := os.Getenv("VERIF_REPO")
+	if repo == "" {
+		repo = "/repo"
+	}
+	tmp, err := os.MkdirTemp("", "c26-e2e-")
+	if err != nil {
+		panic(err)
+	}
+	defer os.RemoveAll(tmp)
+
+	samples := []string{"testWithText.pdf"}
+	if r.Thorough() {
+		samples = append(samples, "zineTest.pdf")
+	}
+	cfgs := []encCfg{{"rc4-40", false, 40}, {"rc4-128", false, 128}, {"aes-128", true, 128}, {"aes-256", true, 256}}
+	none := int(model.PermissionsNone)
+	perms := []int{none, int(model.PermissionsAll), none | 0x10, none | 0x08, none | 0x200, none | 0x400, none | 0x10 | 0x200, none | 0x08 | 0x400, int(model.PermissionsPrint)}
+	if r.Thorough() {
+		for i := 0; i < 16; i++ {
+			perms = append(perms, none|(i&1)<<3|(i>>1&1)<<4|(i>>2&1)<<9|(i>>3&1)<<10|r.Rand.Intn(2)<<2|r.Rand.Intn(2)<<5|r.Rand.Intn(2)<<8|r.Rand.Intn(2)<<11)
+		}
+	}
+	creds := []cred{
+		{"user-only", "upw", "", false, true},
+		{"user+wrong-owner", "upw", "nope", false, true},
+		{"owner-only", "", "opw", true, false},
+		{"both", "upw", "opw", true, true},
+		{"wrong", "nope", "", false, false},
+	}
+	all := ops()
+	for _, s := range samples {
+		src, err := os.ReadFile(filepath.Join(repo, "pkg", "testdata", s))
+		if err != nil {
+			panic(err)
+		}
+		// unencrypted document: never "denied"
+		for _, o := range all {
+			c := model.NewDefaultConfiguration()
+			c.UserPW = "upw"
+			got := safeRun(o, src, c, tmp)
+			r.Case("access", []string{"false", "false", "false", "true", "true", "false", vh.Int(int64(o.mode)), "0", "0"}, got)
+			if got == "denied" {
+				r.OracleFail("unencrypted-denied", map[string]any{"doc": s, "op": o.name}, "an unencrypted document was refused for permission reasons")
+			} else {
+				r.OracleOK()
+			}
+		}
+		for _, cfg := range cfgs {
+			for pi, perm := range perms {
+				if !r.Thorough() && pi >= 2 && (pi+len(cfg.label))%2 == 1 && cfg.klen != 40 {
+					continue // quick tier: half of the single-bit permission sets per cipher (all of them for RC4-40 = revision 2)
+				}
+				conf := model.NewDefaultConfiguration()
+				conf.UserPW, conf.OwnerPW = "upw", "opw"
+				conf.EncryptUsingAES, conf.EncryptKeyLength = cfg.aes, cfg.klen
+				conf.Permissions = model.PermissionFlags(perm)
+				var buf bytes.Buffer
+				if err := api.Encrypt(bytes.NewReader(src), &buf, conf); err != nil {
+					panic(fmt.Sprintf("encrypt %s %s %x: %v", s, cfg.label, perm, err))
+				}
+				enc := buf.Bytes()
+				// what the file says (read with the owner password)
+				rc := model.NewDefaultConfiguration()
+				rc.OwnerPW = "opw"
+				ctx, err := api.ReadContext(bytes.NewReader(enc), rc)
+				if err != nil {
+					panic(fmt.Sprintf("reopen %s %s %x: %v", s, cfg.label, perm, err))
+				}
+				p, rev := ctx.E.P, ctx.E.R
+				r.Count(fmt.Sprintf("e2e:R=%d", rev))
+				for _, o := range all {
+					for ci, cr := range creds {
+						if !r.Thorough() && ci >= 2 && (pi+ci)%3 != 0 {
+							continue
+						}
+						c := model.NewDefaultConfiguration()
+						c.UserPW, c.OwnerPW = cr.upw, cr.opw
+						got := safeRun(o, enc, c, tmp)
+						r.Case("access", []string{"true", vh.Bool(cr.ownerOK), vh.Bool(cr.userOK), "true", vh.Bool(cr.opw == ""), vh.Bool(cr.upw == ""),
+							vh.Int(int64(o.mode)), vh.Int(int64(p)), vh.Int(int64(rev))}, got)
+						oracleB(r, table, s, cfg, o, cr, p, rev, got)
+					}
+				}
+			}
+		}
+	}
+	// make the gap summary visible in the evidence
+	var keys []string
+	for k := range reported {
+		keys = append(keys, k)
+	}
+	sort.Strings(keys)
+	r.Sample(map[string]any{"unclassified-mode witnesses": keys})
+}
+
+func oracleB(r *vh.Run, table map[model.CommandMode][2]int, doc string, cfg encCfg, o op, cr cred, p, rev int, got string) {
+	in := map[string]any{"doc": doc, "cipher": cfg.label, "op": o.name, "mode": name(o.mode), "P": p, "R": rev, "credentials": cr.label}
+	ok := true
+	if strings.HasPrefix(got, "panic:") {
+		r.OracleFail("panic-in-operation", in, got)
+		return
+	}
+	if cr.ownerOK && got == "denied" {
+		r.OracleFail("owner-password-denied", in, "the owner password was supplied and the operation was refused for permission reasons")
+		ok = false
+	}
+	if !cr.ownerOK && cr.userOK && !rejectsEncrypted[o.mode] && got != "owner-required" {
+		row, inTable := table[o.mode]
+		if inTable {
+			needE, needM := row[0] != 0, row[1] != 0
+			wantRefused := needE && deniesExtract(p, rev) || needM && deniesModify(p, rev)
+			switch {
+			case wantRefused && got != "denied" && needE && deniesExtract(p, rev):
+				r.OracleFail("extract-classified-not-refused", in, "got "+got)
+				ok = false
+			case wantRefused && got != "denied":
+				r.OracleFail("modify-classified-not-refused", in, "got "+got)
+				ok = false
+			case !wantRefused && got != "ok":
+				r.OracleFail("refused-although-granted", in, "got "+got)
+				ok = false
+			}
+		}
+		if specMustRefuse(kindOf(o.mode), p, rev) && got == "ok" {
+			key := fmt.Sprintf("B/%s/%d", name(o.mode), rev)
+			if !reported[key] {
+				reported[key] = true
+				r.OracleFail("unclassified-mode:"+name(o.mode), in,
+					"the document denies the right this operation exercises, yet api."+o.name+" succeeded with the user password only")
+			}
+			r.Count("gap-e2e:" + name(o.mode))
+			ok = false
+		}
+	}
+	if ok {
+		r.OracleOK()
 	}
 }
